@@ -120,6 +120,11 @@ class Cookie:
         max_age: int = -1,
         samesite: Literal["strict", "lax", "none"] = "lax",
     ):
+        for attribute in (domain, path):
+            if attribute and any(c in attribute for c in ";\r\n\0"):
+                raise ValueError(
+                    "Cookie domain and path must not contain ';' or control characters."
+                )
         self.name = name
         self.value = value
         self.expires = expires
@@ -172,7 +177,7 @@ class Cookie:
         return "; ".join(parts)
 
     def __bytes__(self) -> bytes:
-        return str(self).encode("ascii")
+        return str(self).encode("latin-1")
 
     def __eq__(self, other: object) -> bool:
         if isinstance(other, str):
@@ -559,6 +564,19 @@ class Headers(typing.Mapping[str, str]):
 
 class MutableHeaders(Headers, typing.MutableMapping[str, str]):
     __slots__ = Headers.__slots__
+
+    def __init__(
+        self,
+        headers: typing.Optional[
+            typing.Union[
+                typing.Mapping[str, str],
+                typing.Iterable[typing.Tuple[str, str]],
+            ]
+        ] = None,
+    ) -> None:
+        super().__init__(headers)
+        for key, value in self._dict.items():
+            self[key] = value  # the same check as for later mutations
 
     def __setitem__(self, key: str, value: str) -> None:
         if "\n" in key or "\r" in key or "\0" in key:
